@@ -1,6 +1,6 @@
 (* Wire entry points of the C07 model (extend-split strategy). *)
 From Coq Require Import ZArith List Bool QArith Qcanon.
-From SG Require Import Base.Sx Base.QcUtil Model.CombiScheme Model.ExtendSplit.
+From SG Require Import Base.Sx Base.QcUtil Model.CombiScheme Model.StdCombi Model.ExtendSplit Model.ESInterp.
 Import ListNotations.
 Open Scope Z_scope.
 
@@ -19,10 +19,15 @@ Definition of_assign (asg : list (box * list point)) : sx :=
   Lv (flat_map (fun r => map (fun p => Lv (of_LQc p :: of_box (fst r))) (snd r)) asg).
 
 (* observation of a state (after evaluate); returns the state with the registered dictionaries *)
-Definition observe (st : state) (pts : list point) (compute : list (box * list (lv * Z * (lv * bool))))
-           (log : list (box * (bool * list nat))) : state * sx :=
+Definition of_interp (vals : list (point * Qc)) : sx :=
+  Lv (map (fun pv => Lv [of_LQc (fst pv); of_Qc (snd pv)]) vals).
+
+(* fopt = Some f: additionally the values of the combined interpolant (__call__) at the evaluation points, computed on
+   the state AFTER the observation pass (the harness calls coarsen_grid for every area first, then the strategy object) *)
+Definition observe_f (fopt : option (list Qc -> Qc)) (st : state) (pts : list point)
+           (compute : list (box * list (lv * Z * (lv * bool)))) (log : list (box * (bool * list nat))) : state * sx :=
   let '(st', co) := observe_coarsen st in
-  (st', Lv [Zv (st_lmax st);
+  (st', Lv ([Zv (st_lmax st);
             Lv (mapi (of_leaf (st_single st)) 0 (st_objs st));
             Lv (map (fun g => Lv [of_LZ (fst g); Zv (snd g)]) (the_scheme (st_cp st)));
             Lv (flat_map (fun r => of_results (fst r) (snd r)) co);
@@ -30,7 +35,10 @@ Definition observe (st : state) (pts : list point) (compute : list (box * list (
             Lv (map (fun b => Lv (of_box b)) (tree_leaves (current_tree st)));
             Lv (flat_map (fun r => of_results (fst r) (snd r)) compute);
             of_log log;
-            sx_bool (forallb (fun g => coarsen_assert_ok (st_cp st) (fst g)) (the_scheme (st_cp st)))]).
+            sx_bool (forallb (fun g => coarsen_assert_ok (st_cp st) (fst g)) (the_scheme (st_cp st)))]
+            ++ match fopt with None => [] | Some f => [of_interp (es_interpolate st' f pts)] end)).
+
+Definition observe := observe_f None.
 
 Definition get_box2 (s e : sx) : option box :=
   match get_LQc s, get_LQc e with Some s, Some e => Some (s, e) | _, _ => None end.
@@ -64,14 +72,52 @@ Definition get_step (x : sx) : option (step_input * list point) :=
   | _ => None
   end.
 
-Fixpoint run_steps (st : state) (steps : list (step_input * list point)) : list sx :=
+Fixpoint run_steps_f (fopt : option (list Qc -> Qc)) (st : state) (steps : list (step_input * list point)) : list sx :=
   match steps with
   | [] => []
   | (inp, pts) :: r =>
     let '(st1, log) := refine_round st (si_decs inp) in
     let '(st2, comp) := evaluate st1 (si_bens inp) in
-    let '(st3, o) := observe st2 pts comp log in
-    o :: run_steps st3 r
+    let '(st3, o) := observe_f fopt st2 pts comp log in
+    o :: run_steps_f fopt st3 r
+  end.
+
+(* step kinds: 0 = refine(); continue_adaptive_refinement(max_evaluations=1)
+               1 = performSpatiallyAdaptiv(..., refinement_container=self.refinement): reinit_new_objects marks EVERY object
+                   new, the evaluation runs over all areas (coarsen_grid for every area and component grid, new scripted
+                   benefits for all); no refinement round *)
+Definition get_step_k (x : sx) : option (step_input * list point * Z) :=
+  match x with
+  | Lv [decs; bens; pts; Zv k] =>
+    match get_step (Lv [decs; bens; pts]) with Some (i, p) => Some (i, p, k) | None => None end
+  | _ => match get_step x with Some (i, p) => Some (i, p, 0) | None => None end
+  end.
+
+Fixpoint run_steps_k (fopt : option (list Qc -> Qc)) (st : state) (steps : list (step_input * list point * Z)) : list sx :=
+  match steps with
+  | [] => []
+  | (inp, pts, k) :: r =>
+    let '(st1, log) := if k =? 1 then (mark_all_new st, []) else refine_round st (si_decs inp) in
+    let '(st2, comp) := evaluate st1 (si_bens inp) in
+    let '(st3, o) := observe_f fopt st2 pts comp log in
+    o :: run_steps_k fopt st3 r
+  end.
+
+Definition run_steps := run_steps_f None.
+
+Definition run_history (fopt : option (list Qc -> Qc)) (cfg bens0 pts0 steps : sx) : sx :=
+  match cfg with
+  | Lv [Zv dim; Zv version; Zv nrbe; auto; single; Zv lmin; Zv lmax; sa; sb; Zv variant] =>
+    match get_bool auto, get_bool single, get_LQc sa, get_LQc sb,
+          get_list get_ben bens0, get_LLQc pts0, get_list get_step_k steps with
+    | Some au, Some si, Some va, Some vb, Some b0, Some p0, Some sts =>
+      let st0 := init_state (Z.to_nat dim) version nrbe lmin lmax (if variant =? 0 then 1 else lmin) au si va vb in
+      let '(st1, comp) := evaluate st0 b0 in
+      let '(st2, o) := observe_f fopt st1 p0 comp [] in
+      Lv (o :: run_steps_k fopt st2 sts)
+    | _, _, _, _, _, _, _ => sx_err 1
+    end
+  | _ => sx_err 1
   end.
 
 Definition get_grids (x : sx) : option (list (lv * Z)) :=
@@ -81,7 +127,11 @@ Definition get_grids (x : sx) : option (list (lv * Z)) :=
 
 (* sub 0: ((dim version nrbe auto single lmin lmax a b variant) bens0 pts0 (step ...)) -> (obs0 obs1 ...)
    sub 1: (d ((levelvec coeff) ...)) -> valid_local_combi
-   sub 2: (dim version lmin lmax coarsening variant) -> local_combi, validity, assert *)
+   sub 2: (dim version lmin lmax coarsening variant) -> local_combi, validity, assert
+   sub 3: as sub 0 with the test function fun_poly al be: ((cfg) (al be) bens0 pts0 (step ...)); every observation carries
+          a 10th component: the values of the combined interpolant at the evaluation points inside the domain
+   sub 4: (dim version lmin lmax coarsening variant) -> coarsen_grid for every component grid on a fresh area:
+          ((levelvec coarse do_compute) ...), once more with the dictionary left behind, assert ok *)
 Definition entry_C07 (sub : Z) (a : sx) : sx :=
   match sub, a with
   | 0, Lv [Lv [Zv dim; Zv version; Zv nrbe; auto; single; Zv lmin; Zv lmax; sa; sb; Zv variant]; bens0; pts0; steps] =>
@@ -103,5 +153,18 @@ Definition entry_C07 (sub : Z) (a : sx) : sx :=
     let cp := mkCP (Z.to_nat dim) version lmin lmax (if variant =? 0 then 1 else lmin) in
     let gs := local_combi cp c in
     Lv [Lv (map (fun g => Lv [of_LZ (fst g); Zv (snd g)]) gs); sx_bool (valid_local_combi (Z.to_nat dim) gs)]
+  | 3, Lv [cfg; Lv [al; be]; bens0; pts0; steps] =>
+    match get_LQc al, get_LQc be with
+    | Some [], Some [] => run_history None cfg bens0 pts0 steps
+    | Some al, Some be => run_history (Some (fun_poly al be)) cfg bens0 pts0 steps
+    | _, _ => sx_err 3
+    end
+  | 4, Lv [Zv dim; Zv version; Zv lmin; Zv lmax; Zv c; Zv variant] =>
+    let cp := mkCP (Z.to_nat dim) version lmin lmax (if variant =? 0 then 1 else lmin) in
+    let '(rs, dict1) := coarsen_all cp c [] (the_scheme cp) in
+    let enc := fun rs : list (lv * Z * (lv * bool)) =>
+                 Lv (map (fun r => Lv [of_LZ (fst (fst r)); of_LZ (fst (snd r)); sx_bool (snd (snd r))]) rs) in
+    Lv [enc rs; enc (fst (coarsen_all cp c dict1 (the_scheme cp)));
+        sx_bool (forallb (fun g => coarsen_assert_ok cp (fst g)) (the_scheme cp))]
   | _, _ => sx_err 0
   end.
